@@ -36,8 +36,8 @@ TRUSTED = [
 ASSUMPTIONS = [
     "one Session, no SAVEPOINTs, no relationships/cascades, objects kept alive by the caller (no weak-reference "
     "collection), single-column primary key set by the application",
-    "histories are cut when an object without identity key has lost its primary-key value or when two pending "
-    "objects share a primary key (outcome depends on Python set iteration order)",
+    "histories are cut when an object without identity key has lost its primary-key value, when two pending "
+    "objects share a primary key (outcome depends on Python set iteration order), and after a rollback() that raised",
 ]
 ANCHORS = [
     ("lib/sqlalchemy/orm/state.py", "InstanceState.transient"),
@@ -352,6 +352,9 @@ def impl(case):
                 sts.append(scode(st) + 32 * fl_)
             evl = [j * 1024 + n * 32 + sc for j in range(len(objs)) for (k, n, sc) in evs if k == j]
             out.append([err + 16 * (res + 1), sum(w << (9 * j) for j, w in enumerate(sts))] + evl)
+            if code == 5 and err != 0:  # a rollback() that raised leaves the transaction half restored: cut
+                out.append([99])
+                break
     finally:
         s.close()
         raw.close()
@@ -442,6 +445,13 @@ def match_finding(case, what):
     m = re.match(r"step \d+ \((\w+)\): object \d+ was (\w+), events (\[.*?\]), is (\w+) ", what)
     if not m:
         return None
+    try:
+        return _match(m)
+    except (KeyError, ValueError):  # states / events outside the vocabulary: not a known finding
+        return None
+
+
+def _match(m):
     inv = {v: k for k, v in SN.items()}
     code = OPN.index(m.group(1))
     b, a = inv[m.group(2)], inv[m.group(4)]
